@@ -9,7 +9,7 @@
    Finding candidate (current tree): TimerSlot.queue <-> TimerQueue.pending is a
    strong cycle; a module dropped while one of its timers is pending leaves the
    queue and the slot allocated (memory only: no user value hangs on them). *)
-From Coq Require Import List NArith Arith Bool.
+From Coq Require Import List NArith Arith Bool Lia.
 From DesVerif Require Import Own.Heap Own.Frame Own.Inv Own.Shape Own.Rank Own.Check Own.Cycle Own.Model.
 Import ListNotations.
 Local Open Scope nat_scope.
@@ -20,7 +20,19 @@ Lemma C20_pinned_schema_not_ranked :
     ~ (trank b < trank a \/ (trank b = trank a /\ tdepth a < tdepth b)).
 Proof.
   exists TChannel, (KField 2), TChannel. repeat split; try reflexivity.
-  cbn. intros [H|[_ H]]; inversion H.
+  cbn. lia.
+Qed.
+
+Definition some_live (p : tag -> bool) (h : heap) : bool := existsb (fun ob => live ob && p (otag ob)) h.
+Definition is_channel (t : tag) : bool := match t with TChannel => true | _ => false end.
+Definition is_queue (t : tag) : bool := match t with TQueue => true | _ => false end.
+Definition is_slot (t : tag) : bool := match t with TSlot => true | _ => false end.
+
+Lemma some_live_spec p h : some_live p h = true ->
+  exists o ob, nth_error h o = Some ob /\ live ob = true /\ p (otag ob) = true.
+Proof.
+  unfold some_live. intros H. apply existsb_exists in H. destruct H as (ob & Hin & Hb).
+  apply andb_true_iff in Hb. destruct Hb as [L T]. apply In_nth_error in Hin. destruct Hin as (o & Eo). eauto.
 Qed.
 
 (* one module sending five messages to itself over a slow queueing channel, stopped by
@@ -28,31 +40,25 @@ Qed.
    owned -- yet after the Sim, the remaining events and the caller's handles are dropped,
    three messages are still alive, and so is the channel *)
 Definition f14_script : list N := [2; 3; 0; 0;  1;  0;0;5;0;0;0;0;0;2;0;  1; 0;0;0;1;1;  0]%N.
+Definition f14_st : st := Eval vm_compute in w_st (fst (fst (stop_state true f14_script))).
+Definition f14_roots : list nat := Eval vm_compute in snd (fst (stop_state true f14_script)).
+Definition f14_after : heap := Eval vm_compute in hp (release_all f14_st f14_roots).
 
 Lemma C20_pinned_buffered_connection_leaks :
   exists s roots, good true s roots /\
     (exists o ob, nth_error (hp (release_all s roots)) o = Some ob /\ live ob = true /\ user_tag (otag ob) = true) /\
-    (exists o ob, nth_error (hp (release_all s roots)) o = Some ob /\ live ob = true /\ otag ob = TChannel).
+    (exists o ob, nth_error (hp (release_all s roots)) o = Some ob /\ live ob = true /\ is_channel (otag ob) = true).
 Proof.
-  exists (w_st (fst (fst (stop_state true f14_script)))), (snd (fst (stop_state true f14_script))).
-  split; [apply goodb_sound; vm_compute; reflexivity|].
-  split.
-  - assert (H : alive_users (hp (release_all (w_st (fst (fst (stop_state true f14_script)))) (snd (fst (stop_state true f14_script))))) = 3%N)
-      by (vm_compute; reflexivity).
-    unfold alive_users in H.
-    destruct (filter (fun ob => user_tag (otag ob) && live ob)
-                (hp (release_all (w_st (fst (fst (stop_state true f14_script)))) (snd (fst (stop_state true f14_script)))))) as [|ob l] eqn:E;
-      [discriminate|].
-    assert (Hin : In ob (ob :: l)) by (left; reflexivity). rewrite <- E in Hin. apply filter_In in Hin.
-    destruct Hin as [Hin Hb]. apply andb_true_iff in Hb. destruct Hb as [U L].
-    apply In_nth_error in Hin. destruct Hin as (o & Eo). exists o, ob. auto.
-  - assert (H : existsb (fun ob => live ob && match otag ob with TChannel => true | _ => false end)
-                  (hp (release_all (w_st (fst (fst (stop_state true f14_script)))) (snd (fst (stop_state true f14_script))))) = true)
-      by (vm_compute; reflexivity).
-    apply existsb_exists in H. destruct H as (ob & Hin & Hb). apply andb_true_iff in Hb. destruct Hb as [L T].
-    apply In_nth_error in Hin. destruct Hin as (o & Eo). exists o, ob. repeat split; try assumption.
-    destruct (otag ob); try discriminate. reflexivity.
+  exists f14_st, f14_roots. split; [apply goodb_sound; vm_compute; reflexivity|].
+  assert (E : hp (release_all f14_st f14_roots) = f14_after) by (vm_compute; reflexivity). rewrite E.
+  split; apply some_live_spec; vm_compute; reflexivity.
 Qed.
+
+(* the witness is the state the model reaches for the script above *)
+Lemma C20_pinned_witness_is_reached :
+  w_st (fst (fst (stop_state true f14_script))) = f14_st /\ snd (fst (stop_state true f14_script)) = f14_roots /\
+  alive_users f14_after = 3%N.
+Proof. vm_compute. repeat split; reflexivity. Qed.
 
 (* the same script on the current schema: nothing user-visible stays alive *)
 Lemma C20_fixed_schema_same_script_releases :
@@ -63,26 +69,21 @@ Proof. vm_compute. split; reflexivity. Qed.
 (* the statement "everything is freed" WITHOUT the timer carve-out is false of the current
    schema: a module with a task sleeping on a timer, dropped before the timer fires *)
 Definition timer_script : list N := [2; 0; 0; 0;  1;  0;0;0;0;1;1000;0;0;0;0;0;  0;  0]%N.
+Definition timer_st : st := Eval vm_compute in w_st (fst (fst (stop_state false timer_script))).
+Definition timer_roots : list nat := Eval vm_compute in snd (fst (stop_state false timer_script)).
+Definition timer_after : heap := Eval vm_compute in hp (release_all timer_st timer_roots).
 
 Lemma C20_timer_cycle_leaks_memory :
   exists s roots, good false s roots /\
-    (exists q qb, nth_error (hp (release_all s roots)) q = Some qb /\ live qb = true /\ otag qb = TQueue) /\
-    (exists sl sb, nth_error (hp (release_all s roots)) sl = Some sb /\ live sb = true /\ otag sb = TSlot) /\
+    (exists q qb, nth_error (hp (release_all s roots)) q = Some qb /\ live qb = true /\ is_queue (otag qb) = true) /\
+    (exists sl sb, nth_error (hp (release_all s roots)) sl = Some sb /\ live sb = true /\ is_slot (otag sb) = true) /\
     alive_users (hp (release_all s roots)) = 0%N.
 Proof.
-  exists (w_st (fst (fst (stop_state false timer_script)))), (snd (fst (stop_state false timer_script))).
-  split; [apply goodb_sound; vm_compute; reflexivity|].
-  assert (Hq : existsb (fun ob => live ob && match otag ob with TQueue => true | _ => false end)
-                 (hp (release_all (w_st (fst (fst (stop_state false timer_script)))) (snd (fst (stop_state false timer_script))))) = true)
-    by (vm_compute; reflexivity).
-  assert (Hs : existsb (fun ob => live ob && match otag ob with TSlot => true | _ => false end)
-                 (hp (release_all (w_st (fst (fst (stop_state false timer_script)))) (snd (fst (stop_state false timer_script))))) = true)
-    by (vm_compute; reflexivity).
-  split; [|split; [|vm_compute; reflexivity]].
-  - apply existsb_exists in Hq. destruct Hq as (ob & Hin & Hb). apply andb_true_iff in Hb. destruct Hb as [L T].
-    apply In_nth_error in Hin. destruct Hin as (o & Eo). exists o, ob. repeat split; try assumption.
-    destruct (otag ob); try discriminate. reflexivity.
-  - apply existsb_exists in Hs. destruct Hs as (ob & Hin & Hb). apply andb_true_iff in Hb. destruct Hb as [L T].
-    apply In_nth_error in Hin. destruct Hin as (o & Eo). exists o, ob. repeat split; try assumption.
-    destruct (otag ob); try discriminate. reflexivity.
+  exists timer_st, timer_roots. split; [apply goodb_sound; vm_compute; reflexivity|].
+  assert (E : hp (release_all timer_st timer_roots) = timer_after) by (vm_compute; reflexivity). rewrite E.
+  split; [|split]; try (apply some_live_spec; vm_compute; reflexivity). vm_compute. reflexivity.
 Qed.
+
+Lemma C20_timer_witness_is_reached :
+  w_st (fst (fst (stop_state false timer_script))) = timer_st /\ snd (fst (stop_state false timer_script)) = timer_roots.
+Proof. vm_compute. split; reflexivity. Qed.
